@@ -232,6 +232,17 @@ def r2_seen_set(chk):
                   'from line(s) %s): the same name can be fetched again, and a file whose module name differs from '
                   'the requested name can loop forever' % (popped, sorted(guard_sets), offenders))
     chk.ob('C08.R2', 'compile/popped-name-recorded(%s)' % popped, ok, where(r.mod, loop), detail)
+    # a map filled under a key other than the popped name (the name a module declares, which may differ from the name
+    # it was fetched by) needs its own seen-guard: the set recording popped names does not know those keys
+    for n in cfg.nodes:
+        if n.kind != 'stmt' or not in_subtree(n.ast, loop):
+            continue
+        ss = cr.subscript_store(n.ast)
+        if ss and ss[0] in r.work and not _key_is(ss[1], popped) and ss[0] != r.result:
+            chk.ob('C08.R2', 'compile/guard-for-%s[%s]' % (ss[0], norm(ss[1])), ss[0] in guard_sets, where(r.mod, n.ast),
+                   '%s is filled under %s, which need not equal the fetched name `%s`; without `if %s in %s: continue` '
+                   'a module parsed from another file is fetched and parsed again under its own name' % (
+                       ss[0], norm(ss[1]), popped, popped, ss[0]))
     # guards dominate every getData of the loop
     for c in r.calls.get('getData', []):
         st = cr.stmt_of(c, r.fn)
@@ -255,9 +266,9 @@ def r2_seen_set(chk):
     chk.ob('C08.R2', 'compile/worklist-pop', ok, where(r.mod, pc), 'pop(%s)' % (norm(pc.args[0]) if pc.args else ''))
 
 
-def r3_ordering(chk):
+def r3_ordering(chk, rule='C08.R3'):
     r = cr.infer(chk.model)
-    chk.doc('C08.R3', 'self._sources/_searchers/_borrowers are created empty, only extended/appended by the add* '
+    chk.doc(rule, 'self._sources/_searchers/_borrowers are created empty, only extended/appended by the add* '
                       'methods and iterated by a plain `for`; never sorted, reversed, sliced or inserted at the front')
     ci = r.cls
     attrs = ('_sources', '_searchers', '_borrowers')
@@ -269,22 +280,22 @@ def r3_ordering(chk):
             key = 'MibCompiler.%s/self.%s' % (mname, n.attr)
             if isinstance(par, ast.Assign) and n in par.targets:
                 ok = mname == '__init__' and isinstance(par.value, ast.List) and not par.value.elts
-                chk.ob('C08.R3', key + ' = ...', ok, where(r.mod, n), 'component list rebound: %s' % norm(par))
+                chk.ob(rule, key + ' = ...', ok, where(r.mod, n), 'component list rebound: %s' % norm(par))
             elif isinstance(par, ast.Attribute) and isinstance(getattr(par, '_parent', None), ast.Call) and \
                     par._parent.func is par:
                 ok = par.attr in ('extend', 'append')
-                chk.ob('C08.R3', key + '.%s()' % par.attr, ok, where(r.mod, n),
+                chk.ob(rule, key + '.%s()' % par.attr, ok, where(r.mod, n),
                        'component list changed by .%s()' % par.attr)
             elif isinstance(par, ast.For) and par.iter is n:
-                chk.ob('C08.R3', key + ' iterated', True, where(r.mod, n))
+                chk.ob(rule, key + ' iterated', True, where(r.mod, n))
             elif isinstance(par, ast.comprehension) and par.iter is n:
                 # only inside debug formatting
-                chk.ob('C08.R3', key + ' in comprehension', in_debug_call(n), where(r.mod, n),
+                chk.ob(rule, key + ' in comprehension', in_debug_call(n), where(r.mod, n),
                        'component list used in a comprehension outside debug output')
             else:
-                chk.ob('C08.R3', key + ' other-use', in_debug_call(n), where(r.mod, n),
+                chk.ob(rule, key + ' other-use', in_debug_call(n), where(r.mod, n),
                        'unexpected use of the component list: %s' % norm(par)[:60])
-    chk.floor('C08.R3', 9, '3 inits, 3 extends, >=3 loops')
+    chk.floor(rule, 9, '3 inits, 3 extends, >=3 loops')
 
 
 def in_debug_call(n):
@@ -364,4 +375,16 @@ def r4_first_hit(chk):
                    names.index('PySmiError'), where(r.mod, t), 'handlers: %s' % names)
 
 
-RULES = [r1_worklist_growth, r2_seen_set, r3_ordering, r4_first_hit]
+def r5_no_mutation_while_iterating(chk):
+    """the import lists that feed the work list (genImports of both generators) and compile()'s own loops"""
+    rels = ['pysmi/compiler.py'] + sorted(r for r in chk.model.modules if r.startswith('pysmi/codegen/'))
+    common.no_mutation_while_iterating(chk, 'C08.R5', rels, floor=30)
+
+
+def r6_argument_agreement(chk):
+    common.argument_agreement(chk, 'C08.R6', ['pysmi/compiler.py'], floor=3)
+
+
+
+RULES = [r1_worklist_growth, r2_seen_set, r3_ordering, r4_first_hit, r5_no_mutation_while_iterating,
+         r6_argument_agreement]
